@@ -360,7 +360,7 @@ func TestVerif_C10_Audio(t *testing.T) {
 		"each x payload length {0,1,2,3,4,5,1000} with PRNG payload bytes; thorough adds random frames/bodies with payloads up to 70000 bytes. " +
 		"distinct = direction x observed first byte x header length x trait byte x payload length (x accepted, for canonical bodies)")
 	cs := enumAudio()
-	nr := m.N(0, 300000)
+	nr := m.N(0, 3000000)
 	total := len(cs) + nr
 	m.Require("evaluations", int64(total))
 	m.Require("frames_roundtrip_checked", 20000)
@@ -591,7 +591,7 @@ func TestVerif_C10_Video(t *testing.T) {
 		"x composition time {0,1,0xFFFF,0x10000,0xFFFFFF}; x payload length {0,1,2,3,4,5,1000} with PRNG payload bytes; thorough adds random frames/bodies " +
 		"with random 24-bit composition times and payloads up to 70000 bytes. distinct = direction x observed first byte x header length x trait byte x payload length (x accepted)")
 	cs := enumVideo()
-	nr := m.N(0, 300000)
+	nr := m.N(0, 3000000)
 	total := len(cs) + nr
 	m.Require("evaluations", int64(total))
 	m.Require("frames_roundtrip_checked", 100000)
